@@ -17,6 +17,16 @@
                    type, so ir.Binop/ir.Unop/ir.AddressOf/Phi.set_incoming raise whenever an
                    operand of another type is defined later in print order)
 
+   Three more switches select the behaviour of ppci/ir.py replace_use, which DictReader reaches
+   through register_value -> Value.replace_by when it patches forward references:
+     fix_ru_generic Instruction.replace_use releases the old use once        (orig: KeyError when
+                    the old value fills two operand slots of one instruction; commit 2d6a9c1)
+     fix_ru_phi     Phi.replace_use releases the old use once                (orig: KeyError when
+                    the old value comes in through two branches; commit e4350a7)
+     fix_ru_call    FunctionCall/ProcedureCall.replace_use replace every matching argument
+                    (orig: only the first one, leaving a dangling placeholder, and KeyError
+                    when the callee is the old value too; commit 283ca09)
+
    How Python objects are modelled over the id-based syntax of Spec/IRSyntax.v
    * a registered value object = its [vref] (+ its ir type, needed by the constructor checks);
      vids are handed out in registration order, which is print order;
@@ -44,9 +54,10 @@ Local Open Scope list_scope.
 Open Scope Z_scope.
 
 Record jcfg := mk_jcfg { fix_value : bool; fix_volatile : bool; fix_copyblob : bool;
-                         fix_undefined : bool; fix_fwdtype : bool }.
-Definition cfg_orig := mk_jcfg false false false false false.
-Definition cfg_fixed := mk_jcfg true true true true true.
+                         fix_undefined : bool; fix_fwdtype : bool;
+                         fix_ru_generic : bool; fix_ru_phi : bool; fix_ru_call : bool }.
+Definition cfg_orig := mk_jcfg false false false false false false false false.
+Definition cfg_fixed := mk_jcfg true true true true true true true true.
 
 Definition JFloat (bits : Z) : json := JObj [("$float64", JNum bits)].
 
@@ -265,36 +276,40 @@ Definition map_refs (g : vref -> vref) (i : instr) : instr :=
   | IConst _ _ _ _ | IAlloc _ _ _ _ | ILit _ _ _ | IUndef _ _ _ | IJump _ | IExit => i
   end.
 (* use.replace_use(old, new) for one user *)
-Definition patch_instr (name : string) (new : vref) (i : instr) : result instr :=
+Definition patch_instr (cfg : jcfg) (name : string) (new : vref) (i : instr) : result instr :=
   let call := fun (c : vref) (args : list vref) (mk : vref -> list vref -> instr) =>
-    if is_old name c
+    if fix_ru_call cfg then Ok (mk (sub1 name new c) (map (sub1 name new) args))
+    else if is_old name c
     then (if existsb (is_old name) args then Internal KeyError else Ok (mk new args))
     else Ok (mk c (replace_first name new args)) in
   match i with
   | ICallF v n t c args => call c args (ICallF v n t)
   | ICallP c args => call c args ICallP
-  | _ => if Nat.leb 2 (count_old name (instr_uses i)) then Internal KeyError
+  | IPhi _ _ _ _ =>
+      if negb (fix_ru_phi cfg) && Nat.leb 2 (count_old name (instr_uses i)) then Internal KeyError
+      else Ok (map_refs (sub1 name new) i)
+  | _ => if negb (fix_ru_generic cfg) && Nat.leb 2 (count_old name (instr_uses i)) then Internal KeyError
          else Ok (map_refs (sub1 name new) i)
   end.
-Definition patch_block (name : string) (new : vref) (k : block) : result block :=
-  ins <- mapM (patch_instr name new) (b_ins k) ;; Ok (mk_block (b_id k) (b_name k) ins).
-Definition patch_func (name : string) (new : vref) (f : func) : result func :=
-  bl <- mapM (patch_block name new) (f_blocks f) ;;
+Definition patch_block (cfg : jcfg) (name : string) (new : vref) (k : block) : result block :=
+  ins <- mapM (patch_instr cfg name new) (b_ins k) ;; Ok (mk_block (b_id k) (b_name k) ins).
+Definition patch_func (cfg : jcfg) (name : string) (new : vref) (f : func) : result func :=
+  bl <- mapM (patch_block cfg name new) (f_blocks f) ;;
   Ok (mk_func (f_name f) (f_binding f) (f_ret f) (f_params f) bl).
 
 (* DictReader.register_value; [self] = the instruction being registered (not yet in its block) *)
-Definition register (name : string) (r : vref) (t : ty) (self : option instr) (st : rst)
+Definition register (cfg : jcfg) (name : string) (r : vref) (t : ty) (self : option instr) (st : rst)
   : result (option instr * rst) :=
   '(self1, st1) <-
     match plookup name (rs_pend st) with
     | None => Ok (self, st)
     | Some _ =>
-        fs <- mapM (patch_func name r) (rs_funcs st) ;;
-        bs <- mapM (patch_block name r) (rs_blocks st) ;;
-        ins <- mapM (patch_instr name r) (rs_ins st) ;;
+        fs <- mapM (patch_func cfg name r) (rs_funcs st) ;;
+        bs <- mapM (patch_block cfg name r) (rs_blocks st) ;;
+        ins <- mapM (patch_instr cfg name r) (rs_ins st) ;;
         s1 <- match self with
               | None => Ok None
-              | Some i => i' <- patch_instr name r i ;; Ok (Some i')
+              | Some i => i' <- patch_instr cfg name r i ;; Ok (Some i')
               end ;;
         Ok (s1, mk_rst (rs_glob st) (rs_loc st) (rs_infun st) (premove name (rs_pend st))
                        (rs_next st) (rs_bmap st) fs bs ins)
@@ -379,11 +394,11 @@ Definition add_instruction (i : instr) (st : rst) : result rst :=
              (rs_funcs st) (rs_blocks st) (rs_ins st ++ [i])).
 
 (* register a freshly built value-defining instruction, then add it to the block *)
-Definition finish_value (i : instr) (st : rst) : result rst :=
+Definition finish_value (cfg : jcfg) (i : instr) (st : rst) : result rst :=
   match instr_def i with
   | None => Internal AssertionError
   | Some (v, n, t) =>
-      '(self, st1) <- register n (Loc v) t (Some i) st ;;
+      '(self, st1) <- register cfg n (Loc v) t (Some i) st ;;
       match self with
       | Some i' => add_instruction i' (with_next st1)
       | None => Internal AssertionError
@@ -449,7 +464,7 @@ Definition construct_instruction (cfg : jcfg) (vt : list (string * ty)) (j : jso
     vol <- jvol cfg j ;;
     _ <- check (ty_eqb ta Ptr) AssertionError ;;
     _ <- check (negb (ty_is_blob t)) ValueErrorI ;;
-    finish_value (ILoad v n t a vol) st1
+    finish_value cfg (ILoad v n t a vol) st1
   else if String.eqb k "store" then
     xn <- jstr "value" j ;; let '((x, _), st1) := gvr vt xn Ptr st in
     an <- jstr "address" j ;; let '((a, ta), st2) := gvr vt an Ptr st1 in
@@ -459,12 +474,12 @@ Definition construct_instruction (cfg : jcfg) (vt : list (string * ty)) (j : jso
   else if String.eqb k "alloc" then
     n <- jstr "name" j ;; s <- jint "size" j ;; al <- jint "alignment" j ;;
     _ <- check (negb (s =? 0)) ValueErrorI ;;
-    finish_value (IAlloc v n s al) st
+    finish_value cfg (IAlloc v n s al) st
   else if String.eqb k "addressof" then
     n <- jstr "name" j ;; tj <- jget "type" j ;; _ <- get_type tj ;;
     sn <- jstr "src" j ;; let '((a, ta), st1) := gvr vt sn Ptr st in
     _ <- check (ty_is_blob ta) TypeError ;;
-    finish_value (IAddrOf v n a) st1
+    finish_value cfg (IAddrOf v n a) st1
   else if String.eqb k "binop" then
     n <- jstr "name" j ;; tj <- jget "type" j ;; t <- get_type tj ;;
     an <- jstr "a" j ;; let '((a, ta), st1) := gvr vt an Ptr st in
@@ -474,7 +489,7 @@ Definition construct_instruction (cfg : jcfg) (vt : list (string * ty)) (j : jso
     | None => Internal TypeError
     | Some o =>
         _ <- check (ty_eqb ta t) TypeError ;; _ <- check (ty_eqb tb t) TypeError ;;
-        finish_value (IBinop v n t o a b) st2
+        finish_value cfg (IBinop v n t o a b) st2
     end
   else if String.eqb k "unop" then
     n <- jstr "name" j ;; tj <- jget "type" j ;; t <- get_type tj ;;
@@ -482,24 +497,24 @@ Definition construct_instruction (cfg : jcfg) (vt : list (string * ty)) (j : jso
     on <- jstr "operation" j ;;
     match unop_of_name on with
     | None => Internal TypeError
-    | Some o => _ <- check (ty_eqb ta t) TypeError ;; finish_value (IUnop v n t o a) st1
+    | Some o => _ <- check (ty_eqb ta t) TypeError ;; finish_value cfg (IUnop v n t o a) st1
     end
   else if String.eqb k "cast" then
     n <- jstr "name" j ;; tj <- jget "type" j ;; t <- get_type tj ;;
     an <- jstr "value" j ;; let '((a, _), st1) := gvr vt an Ptr st in
-    finish_value (ICast v n t a) st1
+    finish_value cfg (ICast v n t a) st1
   else if String.eqb k "const" then
     n <- jstr "name" j ;; tj <- jget "type" j ;; t <- get_type tj ;;
     cj <- jget "value" j ;; c <- read_const cj ;;
-    finish_value (IConst v n t c) st
+    finish_value cfg (IConst v n t c) st
   else if String.eqb k "literaldata" then
     n <- jstr "name" j ;; dj <- jget "data" j ;; d <- asc2bin dj ;;
-    finish_value (ILit v n d) st
+    finish_value cfg (ILit v n d) st
   else if String.eqb k "phi" then
     n <- jstr "name" j ;; tj <- jget "type" j ;; t <- get_type tj ;;
     ij <- jget "inputs" j ;; il <- as_list ij ;;
     '(ins, st1) <- get_phi_inputs vt t il [] st ;;
-    finish_value (IPhi v n t ins) st1
+    finish_value cfg (IPhi v n t ins) st1
   else if String.eqb k "jump" then
     tn <- jstr "target" j ;; b <- get_block_ref tn st ;;
     add_instruction (IJump b) st
@@ -525,7 +540,7 @@ Definition construct_instruction (cfg : jcfg) (vt : list (string * ty)) (j : jso
     aj <- jget "arguments" j ;; al <- as_list aj ;;
     '(args, st2) <- get_args vt al st1 ;;
     _ <- check (ty_eqb tc Ptr) ValueErrorI ;;
-    finish_value (ICallF v n t c args) st2
+    finish_value cfg (ICallF v n t c args) st2
   else if String.eqb k "exit" then add_instruction IExit st
   else if String.eqb k "return" then
     rn <- jstr "result" j ;; let '((a, _), st1) := gvr vt rn Ptr st in
@@ -537,7 +552,7 @@ Definition construct_instruction (cfg : jcfg) (vt : list (string * ty)) (j : jso
     add_instruction (ICopyBlob d s n) st2
   else if fix_undefined cfg && String.eqb k "undefined" then
     n <- jstr "name" j ;; tj <- jget "type" j ;; t <- get_type tj ;;
-    finish_value (IUndef v n t) st
+    finish_value cfg (IUndef v n t) st
   else Internal NotImplemented.
 
 Fixpoint construct_instructions (cfg : jcfg) (vt : list (string * ty)) (l : list json) (st : rst) : result rst :=
@@ -572,14 +587,14 @@ Definition construct_binding (s : string) : result binding :=
 Fixpoint number_blocks (p : positive) (l : list string) : list (string * bid) :=
   match l with [] => [] | s :: r => (s, p) :: number_blocks (Pos.succ p) r end.
 
-Fixpoint construct_params (l : list json) (k : nat) (acc : list (string * ty)) (st : rst)
+Fixpoint construct_params (cfg : jcfg) (l : list json) (k : nat) (acc : list (string * ty)) (st : rst)
   : result (list (string * ty) * rst) :=
   match l with
   | [] => Ok (acc, st)
   | j :: r =>
       n <- jstr "name" j ;; tj <- jget "type" j ;; t <- get_type tj ;;
-      '(_, st1) <- register n (Param k) t None st ;;
-      construct_params r (S k) (acc ++ [(n, t)]) st1
+      '(_, st1) <- register cfg n (Param k) t None st ;;
+      construct_params cfg r (S k) (acc ++ [(n, t)]) st1
   end.
 
 Definition construct_subroutine (cfg : jcfg) (j : json) (st : rst) : result rst :=
@@ -592,12 +607,12 @@ Definition construct_subroutine (cfg : jcfg) (j : json) (st : rst) : result rst 
             rj <- jget "return_type" j ;; t <- get_type rj ;; Ok (Some t)
           else if String.eqb stype "procedure" then Ok None
           else Internal NotImplemented) ;;
-  '(_, st1) <- register name (Glob name) Ptr None st ;;
+  '(_, st1) <- register cfg name (Glob name) Ptr None st ;;
   bnames <- mapM (jstr "name") bl ;;
   _ <- check (nodup_str bnames) AssertionError ;;
   let st2 := mk_rst (rs_glob st1) [] true (rs_pend st1) 1 (number_blocks 1 bnames)
                     (rs_funcs st1) [] [] in
-  '(params, st3) <- construct_params pl O [] st2 ;;
+  '(params, st3) <- construct_params cfg pl O [] st2 ;;
   vt <- (if fix_fwdtype cfg then scan_value_types bl else Ok []) ;;
   st4 <- construct_blocks cfg vt bl st3 ;;
   Ok (mk_rst (rs_glob st4) [] false (rs_pend st4) 1 []
@@ -608,7 +623,7 @@ Fixpoint construct_subroutines (cfg : jcfg) (l : list json) (st : rst) : result 
   | j :: r => st1 <- construct_subroutine cfg j st ;; construct_subroutines cfg r st1
   end.
 
-Definition construct_external (j : json) (st : rst) : result (ext * rst) :=
+Definition construct_external (cfg : jcfg) (j : json) (st : rst) : result (ext * rst) :=
   etype <- jstr "kind" j ;; name <- jstr "name" j ;;
   e <- (if String.eqb etype "variable" then Ok (EVar name)
         else if String.eqb etype "function" then
@@ -618,13 +633,13 @@ Definition construct_external (j : json) (st : rst) : result (ext * rst) :=
           pj <- jget "parameter_types" j ;; pl <- as_list pj ;; tys <- mapM get_type pl ;;
           Ok (EProc name tys)
         else Internal NotImplemented) ;;
-  '(_, st1) <- register name (Glob name) Ptr None st ;;
+  '(_, st1) <- register cfg name (Glob name) Ptr None st ;;
   Ok (e, st1).
-Fixpoint construct_externals (l : list json) (st : rst) : result (list ext * rst) :=
+Fixpoint construct_externals (cfg : jcfg) (l : list json) (st : rst) : result (list ext * rst) :=
   match l with
   | [] => Ok ([], st)
-  | j :: r => '(e, st1) <- construct_external j st ;;
-              '(es, st2) <- construct_externals r st1 ;; Ok (e :: es, st2)
+  | j :: r => '(e, st1) <- construct_external cfg j st ;;
+              '(es, st2) <- construct_externals cfg r st1 ;; Ok (e :: es, st2)
   end.
 
 Definition read_init (j : json) : result init :=
@@ -645,7 +660,7 @@ Definition construct_variable (cfg : jcfg) (j : json) (st : rst) : result (gvar 
               | _ => Internal TypeError
               end
             else Ok None) ;;
-  '(_, st1) <- register name (Glob name) Ptr None st ;;
+  '(_, st1) <- register cfg name (Glob name) Ptr None st ;;
   Ok (mk_gvar name binding amount alignment value, st1).
 Fixpoint construct_variables (cfg : jcfg) (l : list json) (st : rst) : result (list gvar * rst) :=
   match l with
@@ -660,7 +675,7 @@ Definition from_dict (cfg : jcfg) (d : json) : result modul :=
   ej <- jget "externals" d ;; el <- as_list ej ;;
   vj <- jget "variables" d ;; vl <- as_list vj ;;
   sj <- jget "subroutines" d ;; sl <- as_list sj ;;
-  '(exts, st1) <- construct_externals el rst0 ;;
+  '(exts, st1) <- construct_externals cfg el rst0 ;;
   '(vars, st2) <- construct_variables cfg vl st1 ;;
   st3 <- construct_subroutines cfg sl st2 ;;
   _ <- check (match rs_pend st3 with [] => true | _ => false end) AssertionError ;;
